@@ -248,10 +248,10 @@ def run(ck):
     # 3. code -> spec
     g = Gen(rng)
     tasks = g.table_tasks()
-    for i in range(220 if quick else 6000):
+    for i in range(350 if quick else 6000):
         tasks.append(g.state_task(i))
     ops = sorted(P.FORWARDED)
-    for i in range(len(ops) * (8 if quick else 150)):
+    for i in range(len(ops) * (12 if quick else 150)):
         tasks.append(g.sweep_task(ops[i % len(ops)], 24))
     pairs = ck.run_and_validate(tasks, TRACE, nontrivial=nontrivial)
     # a crash of a harness thread (caller / owner / canceller) is a defect of this check, never a verdict
